@@ -40,7 +40,7 @@ struct fn
         T const x = s.xs[k % s.xs.size()], y = s.ys[k % s.ys.size()], v = s.vals[k % s.vals.size()];
         if (s.mode == 1) return (x >= s.lo && x < s.hi) ? v / s.area : T();
         s.weights.push_back(v != T() ? p.weight() : T());
-        if (proj) { proj->add(0, x, v); proj->add(1, x, y, v); }
+        if (proj) { proj->add(0, x, v); proj->add(1, x, y, v); proj->add(2, y, v); }
         return v;
     }
     T operator()(hep::mc_point<T> const& p) const { return go(p, nullptr); }
@@ -51,6 +51,13 @@ struct fn
     T operator()(hep::multi_channel_point<T> const& p, hep::projector<T>& proj) const { return go(p, &proj); }
 };
 
+// the third distribution: one-dimensional over the y range of the two-dimensional one
+template <typename T>
+static hep::distribution_parameters<T> third(hep::distribution_parameters<T> const& d1)
+{
+    return hep::distribution_parameters<T>(d1.bins_y(), d1.y_min(), d1.y_min() + T(d1.bins_y()) * d1.bin_size_y(), "three");
+}
+
 template <typename T>
 static hep::plain_result<T> iterate(int kind, sz n, hep::distribution_parameters<T> const* d0, hep::distribution_parameters<T> const* d1)
 {
@@ -59,19 +66,19 @@ static hep::plain_result<T> iterate(int kind, sz n, hep::distribution_parameters
     S<T>().weights.clear();
     if (kind == 0)
     {
-        return d0 ? hep::plain_iteration(hep::make_integrand<T>(fn<T>(), 1, *d0, *d1), n, gen)
+        return d0 ? hep::plain_iteration(hep::make_integrand<T>(fn<T>(), 1, *d0, *d1, third<T>(*d1)), n, gen)
                   : hep::plain_iteration(hep::make_integrand<T>(fn<T>(), 1), n, gen);
     }
     if (kind == 1)
     {
         hep::vegas_pdf<T> pdf(1, 3);
         pdf.set_bin_left(0, 1, T(0.125)); pdf.set_bin_left(0, 2, T(0.25));
-        return d0 ? hep::plain_result<T>(hep::vegas_iteration(hep::make_integrand<T>(fn<T>(), 1, *d0, *d1), n, pdf, gen))
+        return d0 ? hep::plain_result<T>(hep::vegas_iteration(hep::make_integrand<T>(fn<T>(), 1, *d0, *d1, third<T>(*d1)), n, pdf, gen))
                   : hep::plain_result<T>(hep::vegas_iteration(hep::make_integrand<T>(fn<T>(), 1), n, pdf, gen));
     }
     vf::pl_map<T> map; map.split = {T(0.25), T(0.5), T(0.75)}; map.jac = 3;
     std::vector<T> const w = {T(0.5), T(0.125), T(0.375)};
-    return d0 ? hep::plain_result<T>(hep::multi_channel_iteration(hep::make_multi_channel_integrand<T>(fn<T>(), 1, map, 1, 3, *d0, *d1), n, w, gen))
+    return d0 ? hep::plain_result<T>(hep::multi_channel_iteration(hep::make_multi_channel_integrand<T>(fn<T>(), 1, map, 1, 3, *d0, *d1, third<T>(*d1)), n, w, gen))
               : hep::plain_result<T>(hep::multi_channel_iteration(hep::make_multi_channel_integrand<T>(fn<T>(), 1, map, 1, 3), n, w, gen));
 }
 
@@ -154,7 +161,7 @@ static void part_a(report& r)
             std::string const what = std::string(tn) + " x=" + vf::dec(cx[ix]) + " y=" + vf::dec(cy[iy]) + " value=" + vf::dec(v) + " weight=" + vf::dec(w)
                 + " into 1-d [" + vf::dec(d0.x_min()) + " + k*" + vf::dec(d0.bin_size_x()) + ", " + std::to_string(bx) + " bins] and 2-d " + std::to_string(bx) + "x" + std::to_string(by)
                 + " (y from " + vf::dec(d1.y_min()) + " step " + vf::dec(d1.bin_size_y()) + ") kind=" + std::to_string(kind);
-            if (res.distributions().size() != 2) { r.violate("distribution-count", id, what); continue; }
+            if (res.distributions().size() != 3) { r.violate("distribution-count", id, what); continue; }
             // which bins changed?
             auto changed = [&](hep::distribution_result<T> const& dr, std::vector<long>& hit) {
                 for (sz b = 0; b != dr.results().size(); ++b)
@@ -219,6 +226,15 @@ static void part_a(report& r)
                         r.violate("mid-point-order", id, what + ": mid point of flat bin " + std::to_string(h1[0]) + " reported as (" + vf::dec(L(mxs.at(h1[0]))) + ", " + vf::dec(L(mys.at(h1[0])))
                             + "), the bin that was filled is centred at (" + vf::dec(wx) + ", " + vf::dec(wy) + ")");
                 }
+            }
+            {
+                // third distribution: filled with y only
+                std::vector<long> h2;
+                changed(res.distributions()[2], h2);
+                auto const p2 = res.distributions()[2].parameters();
+                auto const a2 = acceptable<T>(cy[iy], p2.x_min(), p2.bin_size_x(), p2.bins_x());
+                if (!(h2.size() <= 1 && in(a2, h2.empty() ? -1 : h2[0])))
+                    r.violate("wrong-bin-1d/" + classify(cy[iy], p2.x_min(), p2.bin_size_x(), p2.bins_x()), id, what + ": third distribution (y only) bins changed: {" + vf::join(h2) + "}, acceptable: {" + vf::join(a2) + "} (-1 = none)");
             }
             for (auto const& dr : res.distributions())
                 for (auto const& b : dr.results())
